@@ -26,70 +26,118 @@ DUR = {'k': 'adt', 'path': 'core::time::Duration', 'krate': 'core', 'args': []}
 
 
 def element_reset(chk, F, which):
+    """reset rows of the product, per concrete channel: the outer reset leads every reachable typestate of element k
+    (all 16 views) to the initial typestate, keeping the timeout"""
     cfg = F.cfg
-    model, spec, P = scanners.product(F, which)
-    init_keys = {k: label for label, k in P.init_keys}
-    if not model.sub_key('reset'):
-        chk.ob('%s/element-reset/%s/%s' % (PID, cfg, which), 'reset yields the initial value', 'proved',
-               found='the element type has no reset method of its own; the outer reset is interpreted as a whole (outer-reset obligation)', nontrivial=False)
-        return
-    for key in P.order:
-        cs, ss, cons, label = P.pairs[key]
-        rows = [r for r in P.rows if r.pair_key == key and r.kind == 'reset']
-        status, why = 'proved', ''
-        if not rows:
-            status, why = 'unproven', 'no reset row'
-        for r in rows:
-            if r.outcome_kind != 'return' or r.next_key is None:
-                status, why = ('refuted' if r.outcome_kind == 'panic' else 'unproven'), '%s %s' % (r.outcome_kind, r.why)
-            elif r.next_key not in init_keys:
-                status, why = 'refuted', 'after reset the element is %s, a new element is %s' % (
-                    A.typestate_label(F, r.code_out), [A.typestate_label(F, P.pairs[k][0]) for k in init_keys])
-            elif spec.has_poll:
-                # timeout preserved: the initial pair reached must be the one with the same timeout term
-                t_in, t_out = ss[1], r.spec_out[1]
-                if repr(t_in) != repr(t_out):
-                    status, why = 'refuted', 'reset changes the timeout'
-        chk.ob('%s/element-reset/%s/%s/%s' % (PID, cfg, which, A.spec_shape(ss)), 'reset yields the initial value', status,
-               subject=fn_subject(F, model.sub_key('reset')), expected='structurally equal to a new element (timeout kept)',
-               found=[A.typestate_label(F, r.code_out) for r in rows if r.code_out is not None][:1], why=why)
+    model, spec, P0, allp = scanners.product(F, which)
+    rank = {'proved': 0, 'unproven': 1, 'refuted': 2}
+    merged, order = {}, []
+    for k in sorted(allp):
+        P = allp[k]
+        init_keys = {kk: label for label, kk in P.init_keys}
+        for key in P.order:
+            cs, ss, cons, label = P.pairs[key]
+            rows = [r for r in P.rows if r.pair_key == key and r.kind == 'reset']
+            status, why = 'proved', ''
+            if not rows:
+                status, why = 'unproven', 'no reset row'
+            for r in rows:
+                if r.outcome_kind != 'return' or r.next_key is None:
+                    status, why = ('refuted' if r.outcome_kind == 'panic' or r.code_out is not None else 'unproven'), \
+                        '%s %s' % (r.outcome_kind, r.why or ('after reset the state of channel %d is %s' % (k, A.typestate_label(F, r.code_out)) if r.code_out is not None else ''))
+                elif r.next_key not in init_keys:
+                    status, why = 'refuted', 'after reset the state of channel %d is %s, a new scanner has %s' % (
+                        k, A.typestate_label(F, r.code_out), [A.typestate_label(F, P.pairs[x][0]) for x in init_keys])
+                elif spec.has_poll:
+                    # timeout preserved: the initial pair reached must be the one with the same timeout term
+                    t_in, t_out = ss[1], r.spec_out[1]
+                    if repr(t_in) != repr(t_out):
+                        status, why = 'refuted', 'reset changes the timeout'
+            shape = A.spec_shape(ss)
+            cur = (status, why, [A.typestate_label(F, r.code_out) for r in rows if r.code_out is not None][:1])
+            if shape not in merged:
+                order.append(shape)
+                merged[shape] = cur
+            elif rank[status] > rank[merged[shape][0]]:
+                merged[shape] = cur
+    for shape in order:
+        status, why, found = merged[shape]
+        chk.ob('%s/element-reset/%s/%s/%s' % (PID, cfg, which, shape), 'reset yields the initial value', status,
+               subject=fn_subject(F, model.sub_key('reset')), expected='structurally equal to the state of a new scanner (timeout kept), on all 16 channels',
+               found=found, why=why)
+    chk.floor('channels_%s_%s' % (which, cfg), 16, len(allp))
+
+
+def _wild(v):
+    """value key with clock / duration values as wildcards"""
+    def w(x):
+        if isinstance(x, Sc):
+            if x.ty is not None and x.ty.get('k') == 'adt' and x.ty.get('path') in ('std::time::Instant', 'core::time::Duration'):
+                return Sc(T.T('*', 'opaque'), x.ty)
+            return x
+        if isinstance(x, Ag):
+            return Ag(x.path, x.variant, [w(f) for f in x.fields])
+        if isinstance(x, Ar):
+            return Ar([w(e) for e in x.elems])
+        return x
+    return val_key(w(v))
 
 
 def outer_clauses(chk, F, which):
+    from .c13 import opaque_tokens
     cfg = F.cfg
-    model, spec, P = scanners.product(F, which)
+    model, spec, P, allp = scanners.product(F, which)
     hit = find_impl(Interp(F), 'core::default::Default', 'default', [model.outer_ty])
     I = Interp(F)
     d_outs = I.run(hit[0], [], hit[1]) if hit else []
     dval = d_outs[0].value if len(d_outs) == 1 and d_outs[0].kind == 'return' else None
-    delem = dval.fields[0].elems[0] if isinstance(dval, Ag) and isinstance(dval.fields[0], Ar) else None
-    # ---- outer reset from an arbitrary scanner
+    darr = dval.fields[model.ai] if isinstance(dval, Ag) and len(dval.fields) > model.ai else None
+    delem = darr.elems[0] if isinstance(darr, Ar) else None
+    # ---- outer reset from an arbitrary (not only reachable) scanner
     key = '%s/outer-reset/%s/%s' % (PID, cfg, which)
 
     def ev():
-        I = Interp(F)
-        st = I.new_state()
-        selfv = I.top_of(st, model.outer_ty, 'scanner')
-        st.root().locals['self'] = selfv
-        outs = I.run(model.methods['reset'][0], [Rf(0, 'self', (), True)], [], st)
+        if 'reset' not in model.methods:
+            return chk.ob(key, 'outer reset covers every element', 'refuted', why='the scanner has no reset method')
+        if delem is None:
+            return chk.ob(key, 'outer reset covers every element', 'unproven', why='default() of the scanner could not be interpreted')
         status, why = 'proved', ''
-        if len(outs) != 1 or outs[0].kind != 'return':
-            return chk.ob(key, 'outer reset covers every element', 'unproven' if not any(o.kind == 'panic' for o in outs) else 'refuted',
-                          subject=fn_subject(F, model.methods['reset'][0]), why='outcomes %r' % [(o.kind, o.why) for o in outs][:3])
-        after = outs[0].st.root().locals['self']
-        arr_b, arr_a = selfv.fields[0], after.fields[0]
-        if not isinstance(arr_a, Ar) or len(arr_a.elems) != 16 or delem is None:
-            return chk.ob(key, 'outer reset covers every element', 'unproven', why='array shape %r' % (arr_a,))
-        sub_fields = F.adts[model.sub]['variants'][0]['fields']
-        for i, (b, a) in enumerate(zip(arr_b.elems, arr_a.elems)):
-            for j, fd in enumerate(sub_fields):
-                keep = fd['ty']['k'] == 'adt' and fd['ty']['path'] == 'core::time::Duration'
-                want = b.fields[j] if keep else delem.fields[j]
-                got = a.fields[j] if isinstance(a, Ag) and j < len(a.fields) else None
-                if got is None or val_key(got) != val_key(want):
-                    status, why = 'refuted', 'element %d, field %s after reset is %r, expected %r' % (i, fd['name'], got, want)
+        for j in range(16):
+            # element j in an arbitrary (not only reachable) state, the others as in a new scanner
+            I = Interp(F)
+            st = I.new_state()
+            selfv = I.top_of(st, model.outer_ty, 'scanner')
+            arr_b = selfv.fields[model.ai]
+            fields = list(selfv.fields)
+            fields[model.ai] = Ar([arr_b.elems[i] if i == j else delem for i in range(16)])
+            selfv = Ag(selfv.path, selfv.variant, fields)
+            st.root().locals['self'] = selfv
+            outs = I.run(model.methods['reset'][0], [Rf(0, 'self', (), True)], [], st)
+            outs = [o for o in outs if o.kind != 'dead']
+            if not outs or any(o.kind != 'return' for o in outs):
+                return chk.ob(key, 'outer reset covers every element', 'unproven' if not any(o.kind == 'panic' for o in outs) else 'refuted',
+                              subject=fn_subject(F, model.methods['reset'][0]), why='element %d arbitrary: outcomes %r' % (j, sorted(set((o.kind, o.why) for o in outs))[:3]))
+            shared_b = set()
+            for i in model.extra:
+                shared_b |= opaque_tokens(selfv.fields[i])
+            for o in outs:
+                after = o.st.root().locals['self']
+                arr_a = after.fields[model.ai] if isinstance(after, Ag) and len(after.fields) > model.ai else None
+                if not isinstance(arr_a, Ar) or len(arr_a.elems) != 16:
+                    return chk.ob(key, 'outer reset covers every element', 'unproven', why='array shape %r' % (arr_a,))
+                for i, a in enumerate(arr_a.elems):
+                    b = selfv.fields[model.ai].elems[i]
+                    if _wild(a) != _wild(delem):
+                        status, why = 'refuted', 'element %d after reset is %r, a new element is %r' % (i, a, delem)
+                    elif not opaque_tokens(a) <= (opaque_tokens(b) | shared_b):
+                        status, why = 'refuted', 'element %d after reset holds a timeout / time value %r that it did not hold before' % (i, sorted(opaque_tokens(a) - opaque_tokens(b)))
+                for i in model.extra:
+                    fb, fa = selfv.fields[i], after.fields[i]
+                    if val_key(fa) != val_key(fb) and (opaque_tokens(fa) or dval is None or val_key(fa) != val_key(dval.fields[i])):
+                        status, why = 'refuted', 'field %s after reset is %r (neither kept nor the value of a new scanner)' % (model.fields[i]['name'], fa)
         chk.ob(key, 'outer reset covers every element', status, subject=fn_subject(F, model.methods['reset'][0]),
-               expected='all 16 elements equal to a new element (timeouts kept)', found='16 elements compared field by field', why=why)
+               expected='each element in turn in an arbitrary state: all 16 elements equal to a new element afterwards (timeouts kept)',
+               found='16 x 16 elements compared', why=why)
     guarded(chk, key, 'outer reset covers every element', ev)
     # ---- new vs default
     key2 = '%s/new-default/%s/%s' % (PID, cfg, which)
@@ -108,7 +156,7 @@ def outer_clauses(chk, F, which):
                found=[repr(o.value)[:120] for o in outs], why='' if ok else 'values differ')
         # PartialEq is the builtin derive (structural equality is what == observes)
         from ..models import builtin_derive
-        for ty in (model.outer, model.sub):
+        for ty in [t for t in (model.outer, model.sub) if t]:
             ims = [im for im in F.impls if im.get('trait') == 'core::cmp::PartialEq' and im['self']['k'] == 'adt' and im['self']['path'] == ty]
             okd = len(ims) == 1 and builtin_derive(ims[0])
             chk.ob('%s/eq-is-structural/%s/%s/%s' % (PID, cfg, which, ty.split('::')[-1]), 'derived equality', 'proved' if okd else 'unproven',
